@@ -48,6 +48,91 @@ func (e *callNilEngine) generate(r *rng, n int, tier string, emit func(string)) 
 	for _, n := range []int{10, 1000, 4095, 4096, 4097, 5000, 65535, 65536, 65537, 200000} {
 		emit(fmt.Sprintf("bigpanic %d", n))
 	}
+	for _, k := range panicValKinds {
+		for _, src := range []string{"nth", "throw", "throwmap", "unbound", "plain"} {
+			emit("panicval " + k + " " + src)
+		}
+	}
+}
+
+// panicval <kind> <src>: a bound function calls back into the interpreter, gets an error (src: a failing builtin, a thrown
+// string, a thrown map, an unbound symbol — all POSITIONED by the evaluator — or a plain Go error), dresses it (kind) and
+// PANICS with the result: "a panic inside it becomes a catchable error that still wraps the original" — the original is
+// the value the function panicked with, whatever that value itself wraps.
+var panicValKinds = []string{"asis", "wrapf", "wrapf2", "join", "custom"}
+
+type customWrap struct{ inner error }
+
+func (c *customWrap) Error() string { return "custom wrapper around: " + c.inner.Error() }
+func (c *customWrap) Unwrap() error { return c.inner }
+
+func (e *callNilEngine) runPanicVal(kind, src string) string {
+	ec := &evalCase{}
+	ns, err := freshEnv(ec)
+	if err != nil {
+		return "setup-error"
+	}
+	text := map[string]string{"nth": "(do\n (nth [1 2] 7))", "throw": "(do\n (throw \"boom\"))", "throwmap": "(do\n (throw {:code 7}))", "unbound": "(do\n no-such-name)"}[src]
+	var inner error
+	if src == "plain" {
+		inner = errors.New("plain failure")
+	} else {
+		ast, err := lisp.READ(text, NewCursorFile("cb.lisp"), ns)
+		if err != nil {
+			return "setup-error"
+		}
+		if _, inner = lisp.EVAL(context.Background(), ast, ns); inner == nil {
+			return "setup-error"
+		}
+	}
+	var orig error
+	switch kind {
+	case "asis":
+		orig = inner
+	case "wrapf":
+		orig = fmt.Errorf("must-call: callback failed: %w", inner)
+	case "wrapf2":
+		orig = fmt.Errorf("outer: %w", fmt.Errorf("middle: %w", inner))
+	case "join":
+		orig = errors.Join(errors.New("first of two"), inner)
+	case "custom":
+		orig = &customWrap{inner}
+	}
+	call.CallOverrideFN(ns, "probe", func() (MalType, error) { panic(orig) })
+	var cerr error
+	var caught MalType
+	res := safeRunInline(func() string {
+		_, cerr = lisp.EVAL(context.Background(), List{Val: []MalType{Symbol{Val: "probe"}}}, ns)
+		prog, err := lisp.READ("(try (probe) (catch e (str e)))", nil, ns)
+		if err != nil {
+			return "setup-error"
+		}
+		caught, _ = lisp.EVAL(context.Background(), prog, ns)
+		return ""
+	})
+	if res != "" {
+		return res + "\t!a Go panic escaped from a call of a bound function"
+	}
+	if cerr == nil {
+		return "no-error\t!a bound function panicked and the call returned no error"
+	}
+	if kind != "asis" { // (asis: the original IS an interpreter error value; comparing those is not the binder's business)
+		ok := safeRunInline(func() string {
+			if !errors.Is(cerr, orig) {
+				return "chain-lost"
+			}
+			return ""
+		})
+		if ok != "" {
+			return fmt.Sprintf("%s\t!a bound function panicked with a %s wrapper around a %s error: the caller's error must still wrap THAT value (errors.Is): got %s", ok, kind, src, oneLine(cerr.Error())[:min(len(oneLine(cerr.Error())), 160)])
+		}
+		// the wrapper's own text is part of what the handler sees
+		mark := map[string]string{"wrapf": "callback failed", "wrapf2": "middle:", "join": "first of two", "custom": "custom wrapper"}[kind]
+		if cs, _ := caught.(string); !strings.Contains(cs, mark) {
+			return fmt.Sprintf("text-lost\t!the handler of a panicking bound function (%s around %s) sees %s: the panic value's own text (%q) is gone", kind, src, render(caught)[:min(len(render(caught)), 160)], mark)
+		}
+	}
+	return "ok"
 }
 
 // count <ctx|noctx> <k>: a variadic function called with exactly k arguments is entered with exactly those k arguments
@@ -105,6 +190,9 @@ func (e *callNilEngine) run(payload string) string {
 	f := strings.Fields(payload)
 	if len(f) >= 2 && (f[0] == "count" || f[0] == "bigpanic") {
 		return e.runExtra(f)
+	}
+	if len(f) == 3 && f[0] == "panicval" {
+		return e.runPanicVal(f[1], f[2])
 	}
 	if len(f) != 2 {
 		return "bad-case"
